@@ -213,7 +213,11 @@ def run_case(ck, desc):
         kr = relative_permeabilities(rec, RelPermParams(*p9))
         df_kr = pd.DataFrame({"So": so, "Sw": np.full(50, Sw), "Sg": 1 - Sw - so, "kro": kr["kro"], "krw": kr["krw"], "krg": kr["krg"]})
     u = desc["u"]
-    if desc.get("jail") and len(P) >= 12 and float(np.ptp(cols["So"])) > 0.1:
+    so_sorted_ = np.sort(cols["So"])
+    # (on condensate tables half the rows have So = 0 exactly: a "window" taken from the sorted rows collapses to the
+    #  single point So = 0 and the construction below is not a jail any more - thorough seed 6; skipped there)
+    jail_ok_ = len(P) >= 12 and float(so_sorted_[len(so_sorted_) // 4 + max(3, len(so_sorted_) // 6)] - so_sorted_[len(so_sorted_) // 4]) > 1e-3 if len(P) >= 12 else False
+    if desc.get("jail") and jail_ok_ and float(np.ptp(cols["So"])) > 0.1:
         # a "permeability jail": all three relative permeabilities are zero over a window of oil
         # saturation that several consecutive table rows fall into; the integral is flat there, every
         # row stays a row, and the transform is strictly increasing only where something is mobile
@@ -255,6 +259,11 @@ def run_case(ck, desc):
     if len(got) != len(P) or not np.array_equal(np.asarray(obj.pvt_props["pressure"], dtype=float), P):
         ck.violation("stored-table-keeps-every-row", {"rows_stored": int(len(got)), "rows_in_table": int(len(P))}, desc)
         return True, None
+    if np.all(np.isfinite(got)) and float(np.interp(p_i, P, got)) == 0.0 and desc.get("jail"):
+        # (the constructed immobile stretch reaches from the first row past p_i: nothing has flowed by p_i, the
+        #  integral there is 0 and "1 at the initial pressure" has no meaning - thorough seed 6; not a case)
+        ck.count("tables_skipped_nothing_mobile_up_to_the_initial_pressure")
+        return False, {"skipped": "immobile from the first row past p_i"}
     if not CAPTURED:
         # the table's pseudopressure is judged below whichever routine produced it
         ck.count("from_table_calls_that_bypassed_the_spy")
